@@ -47,6 +47,29 @@
 // Zero-length read buffers are part of the drawn buffer cycles in every layer (at most 24 per reader): such a Read must
 // return n = 0 and change nothing - whatever it does to the layer's state shows in the reads that follow.
 //
+// Writer behaviour "deadline, then carry on" (strata clean and timing, one writer, drawn last in the plan, 1/3 of the
+// directions): before one of its writes the writer sets a write deadline that has already passed - or, on yamux streams, one
+// 1-40 virtual ms ahead while the write is larger than the 256 KiB send window and the reader starts 2 s late - and when
+// Write returns a timeout it lifts the deadline and CONTINUES FROM b[n:], exactly as the returned n says (io.Writer: "the
+// number of bytes written from p and any error that caused the write to stop early"; net.Conn: timeouts are retryable).
+// The oracles are unchanged: every byte once, in order - a range that arrives twice or never is a violation whichever
+// layer mis-reported n. On the bare layers the raw connection is wrapped (dlConn) so that a Write past its deadline fails
+// before anything is written, as on a real socket. What the unchanged tree does, per layer (checked in the source):
+//   - yamux streams (mux-*, host-* listener side and later writes of the opener) and QUIC streams: n is exact (what was
+//     queued for sending), the timeout is temporary: held to the full oracle (complete delivery, exactly once).
+//   - pnet: only the FIRST Write is given the deadline (it fails before the nonce is out and the cipher is only kept once
+//     the nonce was written: resumable). OBSERVATION, not exercised: a later Write XORs its key stream BEFORE the write that
+//     fails, so after (0, timeout) the retry is encrypted with key stream the reader is not at - garbage for ever, no error.
+//   - Noise: the frame that failed consumed a nonce; the writer carries on without an error but the reader's next frame
+//     fails authentication (an error, never wrong data). OBSERVATION: probe observation:write-deadline-ended-the-session/noise.
+//   - crypto/tls documents it: "After a Write has timed out, the TLS state is corrupt and all future writes will return the
+//     same error" - the writer ends with that error; same probe.
+//   - host layers, opener's first write: it carries the lazy multistream handshake through a bufio.Writer;
+//     lazyClientConn.Write then returns n = the bytes it BUFFERED (not sent) together with the timeout and keeps the error
+//     for good, so the stream never comes to life (neither direction). n is an upper bound there, but since every later
+//     Write fails nothing is lost silently. OBSERVATION, same probe; both directions of that stream are only held to
+//     "never wrong data".
+//
 // Drawn in every stratum (no faults, part of "every underlying connection"): each raw endpoint may return the last
 // bytes of the stream TOGETHER with io.EOF in one Read call (simnet SetEOFWithData; the io.Reader contract allows it).
 // Noise-based layers get a prelude of 0-3 sacrificial bare Noise sessions that are closed while plaintext of a partially
@@ -172,6 +195,12 @@
 //	T1   sampledconn.Read: bytesPeeked = 3 after any partial copy (peeked bytes dropped on a 1-byte read)
 //	T2   sampledconn.Read: the peeked bytes are handed out twice
 //	T3   sampledconn.Read: copy starts one byte too far
+//
+// Third-round seeds (VERIF_REPO=<worktree> ./check C02 quick, 8 workers, both within the 50 s):
+//
+//	S5   yamux glue Write reports 0 next to an error (go-yamux reported partial progress)   wrong-bytes/{mux,host}-{noise,tls} at offset
+//	     262144 "equals the planned bytes at offset 0" (needs deadline-then-carry-on with a write larger than the window and a late reader)
+//	S6   pnet Write keeps the cipher before the nonce is written                      wrong-bytes/pnet (needs the first Write to fail by its deadline)
 //
 // Seeded by the lead (checked with VERIF_REPO=<worktree> ./check C02 quick, 8 workers):
 //
